@@ -1,0 +1,317 @@
+//! Verification-only (`--cfg repe_verif_loom`): a `std` look-alike whose
+//! synchronisation primitives are loom's, so that the loom model checker owns
+//! every scheduling point of `stream.rs`, `peer.rs`, `registry.rs` and
+//! `client.rs`. Each of those files gains exactly one line,
+//! `#[cfg(repe_verif_loom)] use crate::verif_loom::std_shadow as std;`.
+//! Nothing here is compiled in a normal build.
+//!
+//! Time is virtual: `Instant::now()` reads a harness-controlled clock and
+//! `Condvar::wait_timeout` / `mpsc::Receiver::recv_timeout` time out only when
+//! the harness calls [`clock::advance`] past their deadline.
+
+use ::std::sync::Arc as StdArc;
+
+/// Harness-controlled virtual clock.
+pub mod clock {
+    use super::StdArc;
+    use ::loom::sync::{Condvar as LCondvar, Mutex as LMutex};
+
+    /// Hand-shake pair used by the shadow `Condvar`; see DESIGN.md §4 rules 1-3.
+    pub struct Aux {
+        pub m: LMutex<()>,
+        pub cv: LCondvar,
+    }
+
+    struct State {
+        now: u64,
+        waiters: Vec<(u64, u64, StdArc<Aux>)>,
+        next: u64,
+    }
+
+    ::loom::lazy_static! {
+        static ref CLOCK: LMutex<State> = LMutex::new(State { now: 0, waiters: Vec::new(), next: 0 });
+    }
+    ::loom::thread_local! {
+        static LAST_READ: ::std::cell::Cell<Option<u64>> = ::std::cell::Cell::new(None);
+    }
+
+    pub fn now_nanos() -> u64 {
+        let n = CLOCK.lock().unwrap().now;
+        LAST_READ.with(|c| c.set(Some(n)));
+        n
+    }
+
+    /// Instant from which a relative timeout is armed: the calling thread's
+    /// last clock read (the code between `Instant::now()` and the wait takes
+    /// zero virtual time).
+    pub fn arming_base() -> u64 {
+        let fresh = CLOCK.lock().unwrap().now;
+        LAST_READ.with(|c| c.take()).unwrap_or(fresh)
+    }
+
+    pub fn peek_nanos() -> u64 {
+        CLOCK.lock().unwrap().now
+    }
+
+    pub fn register(deadline: u64, aux: &StdArc<Aux>) -> Option<u64> {
+        let mut c = CLOCK.lock().unwrap();
+        if c.now >= deadline {
+            return None;
+        }
+        let id = c.next;
+        c.next += 1;
+        c.waiters.push((id, deadline, aux.clone()));
+        Some(id)
+    }
+
+    pub fn deregister(id: u64) {
+        CLOCK.lock().unwrap().waiters.retain(|w| w.0 != id);
+    }
+
+    /// Harness only: move virtual time forward and wake every timed waiter
+    /// whose deadline has passed.
+    pub fn advance(nanos: u64) {
+        let due: Vec<StdArc<Aux>> = {
+            let mut c = CLOCK.lock().unwrap();
+            c.now += nanos;
+            let now = c.now;
+            c.waiters
+                .iter()
+                .filter(|w| w.1 <= now)
+                .map(|w| w.2.clone())
+                .collect()
+        };
+        for a in due {
+            let _g = a.m.lock().unwrap();
+            a.cv.notify_all();
+        }
+    }
+
+    /// Number of threads currently parked in a timed wait (harness introspection).
+    pub fn timed_waiters() -> usize {
+        CLOCK.lock().unwrap().waiters.len()
+    }
+}
+
+pub mod std_shadow {
+    pub use ::std::*;
+
+    pub mod time {
+        pub use ::std::time::Duration;
+        use crate::verif_loom::clock;
+
+        /// Virtual instant (nanoseconds on the harness clock).
+        #[derive(Clone, Copy, Debug, PartialEq, Eq, PartialOrd, Ord, Hash)]
+        pub struct Instant(pub u64);
+
+        impl Instant {
+            pub fn now() -> Instant {
+                Instant(clock::now_nanos())
+            }
+            pub fn duration_since(&self, earlier: Instant) -> Duration {
+                Duration::from_nanos(self.0.saturating_sub(earlier.0))
+            }
+            pub fn saturating_duration_since(&self, earlier: Instant) -> Duration {
+                Duration::from_nanos(self.0.saturating_sub(earlier.0))
+            }
+            pub fn checked_duration_since(&self, earlier: Instant) -> Option<Duration> {
+                self.0.checked_sub(earlier.0).map(Duration::from_nanos)
+            }
+            pub fn elapsed(&self) -> Duration {
+                Instant::now().duration_since(*self)
+            }
+            pub fn checked_add(&self, d: Duration) -> Option<Instant> {
+                u64::try_from(d.as_nanos())
+                    .ok()
+                    .and_then(|n| self.0.checked_add(n))
+                    .map(Instant)
+            }
+        }
+        impl ::std::ops::Add<Duration> for Instant {
+            type Output = Instant;
+            fn add(self, d: Duration) -> Instant {
+                Instant(self.0.saturating_add(u64::try_from(d.as_nanos()).unwrap_or(u64::MAX)))
+            }
+        }
+        impl ::std::ops::Sub<Duration> for Instant {
+            type Output = Instant;
+            fn sub(self, d: Duration) -> Instant {
+                Instant(self.0.saturating_sub(u64::try_from(d.as_nanos()).unwrap_or(u64::MAX)))
+            }
+        }
+        impl ::std::ops::Sub<Instant> for Instant {
+            type Output = Duration;
+            fn sub(self, o: Instant) -> Duration {
+                Duration::from_nanos(self.0.saturating_sub(o.0))
+            }
+        }
+    }
+
+    pub mod thread {
+        pub use ::loom::thread::{Builder, JoinHandle, Thread, current, park, spawn, yield_now};
+        pub use ::std::thread::Result;
+
+        /// Sleeping takes no virtual time; it is a scheduling point.
+        pub fn sleep(_d: ::std::time::Duration) {
+            ::loom::thread::yield_now();
+        }
+        pub fn available_parallelism() -> ::std::io::Result<::std::num::NonZeroUsize> {
+            Ok(::std::num::NonZeroUsize::new(2).unwrap())
+        }
+    }
+
+    pub mod sync {
+        pub use ::std::sync::{Arc, LockResult, PoisonError, TryLockError, TryLockResult, Weak};
+        pub use ::loom::sync::{RwLock, RwLockReadGuard, RwLockWriteGuard};
+        use crate::verif_loom::clock;
+        use ::std::sync::Arc as StdArc;
+        use ::std::time::Duration;
+
+        pub mod atomic {
+            pub use ::loom::sync::atomic::{
+                AtomicBool, AtomicU32, AtomicU64, AtomicUsize, fence,
+            };
+            pub use ::std::sync::atomic::Ordering;
+        }
+
+        pub use crate::verif_loom::mpsc_shadow as mpsc;
+
+        /// loom mutex whose guard remembers its mutex (needed to re-lock after
+        /// a condition wait that goes through the hand-shake lock).
+        pub struct Mutex<T>(::loom::sync::Mutex<T>);
+
+        pub struct MutexGuard<'a, T> {
+            g: Option<::loom::sync::MutexGuard<'a, T>>,
+            m: &'a Mutex<T>,
+        }
+
+        impl<T> Mutex<T> {
+            pub fn new(t: T) -> Self {
+                Mutex(::loom::sync::Mutex::new(t))
+            }
+            pub fn lock(&self) -> LockResult<MutexGuard<'_, T>> {
+                match self.0.lock() {
+                    Ok(g) => Ok(MutexGuard { g: Some(g), m: self }),
+                    Err(p) => Err(PoisonError::new(MutexGuard {
+                        g: Some(p.into_inner()),
+                        m: self,
+                    })),
+                }
+            }
+            pub fn into_inner(self) -> LockResult<T> {
+                self.0.into_inner()
+            }
+            pub fn get_mut(&mut self) -> LockResult<&mut T> {
+                self.0.get_mut()
+            }
+        }
+        impl<T: Default> Default for Mutex<T> {
+            fn default() -> Self {
+                Mutex::new(T::default())
+            }
+        }
+        impl<T> ::std::fmt::Debug for Mutex<T> {
+            fn fmt(&self, f: &mut ::std::fmt::Formatter<'_>) -> ::std::fmt::Result {
+                f.write_str("Mutex { .. }")
+            }
+        }
+        impl<T> ::std::ops::Deref for MutexGuard<'_, T> {
+            type Target = T;
+            fn deref(&self) -> &T {
+                self.g.as_ref().unwrap()
+            }
+        }
+        impl<T> ::std::ops::DerefMut for MutexGuard<'_, T> {
+            fn deref_mut(&mut self) -> &mut T {
+                self.g.as_mut().unwrap()
+            }
+        }
+
+        #[derive(Clone, Copy, Debug, PartialEq, Eq)]
+        pub struct WaitTimeoutResult(bool);
+        impl WaitTimeoutResult {
+            pub fn timed_out(&self) -> bool {
+                self.0
+            }
+        }
+
+        pub struct Condvar {
+            aux: StdArc<clock::Aux>,
+        }
+
+        impl Default for Condvar {
+            fn default() -> Self {
+                Condvar::new()
+            }
+        }
+
+        impl Condvar {
+            pub fn new() -> Self {
+                Condvar {
+                    aux: StdArc::new(clock::Aux {
+                        m: ::loom::sync::Mutex::new(()),
+                        cv: ::loom::sync::Condvar::new(),
+                    }),
+                }
+            }
+            pub fn notify_all(&self) {
+                let _g = self.aux.m.lock().unwrap();
+                self.aux.cv.notify_all();
+            }
+            pub fn notify_one(&self) {
+                let _g = self.aux.m.lock().unwrap();
+                self.aux.cv.notify_one();
+            }
+            fn park<'a, T>(
+                &self,
+                guard: MutexGuard<'a, T>,
+                arm: impl FnOnce() -> bool,
+            ) -> (MutexGuard<'a, T>, bool) {
+                let m = guard.m;
+                // rule 1: take the hand-shake lock before releasing the user mutex
+                let aux_g = self.aux.m.lock().unwrap();
+                // rule 2: arm the timer while the hand-shake lock is held
+                if !arm() {
+                    drop(aux_g);
+                    return (guard, false);
+                }
+                drop(guard);
+                let aux_g = self.aux.cv.wait(aux_g).unwrap();
+                drop(aux_g);
+                let g = match m.lock() {
+                    Ok(g) => g,
+                    Err(p) => p.into_inner(),
+                };
+                (g, true)
+            }
+            pub fn wait<'a, T>(&self, guard: MutexGuard<'a, T>) -> LockResult<MutexGuard<'a, T>> {
+                let (g, _) = self.park(guard, || true);
+                Ok(g)
+            }
+            pub fn wait_timeout<'a, T>(
+                &self,
+                guard: MutexGuard<'a, T>,
+                dur: Duration,
+            ) -> LockResult<(MutexGuard<'a, T>, WaitTimeoutResult)> {
+                // rule 3: relative timeouts are armed from the thread's last clock read
+                let deadline = clock::arming_base()
+                    .saturating_add(u64::try_from(dur.as_nanos()).unwrap_or(u64::MAX));
+                let mut id = None;
+                let (g, _) = self.park(guard, || {
+                    id = clock::register(deadline, &self.aux);
+                    id.is_some()
+                });
+                if let Some(id) = id {
+                    clock::deregister(id);
+                }
+                Ok((g, WaitTimeoutResult(clock::peek_nanos() >= deadline)))
+            }
+        }
+    }
+}
+
+/// Placeholder channel module; the blocking-client shim replaces it.
+pub mod mpsc_shadow {
+    pub use ::loom::sync::mpsc::{Receiver, Sender, channel};
+    pub use ::std::sync::mpsc::{RecvError, RecvTimeoutError, SendError, TryRecvError};
+}
